@@ -1,2 +1,233 @@
-import GeomV.C01.Model
+import GeomV.C01.Lemmas
 import GeomV.C14.Spec
+/-!
+# C14 theorems (property: Clip returns exactly the parts of a line that lie inside the polygon)
+
+`core.line` — polyclip's CLIPLINE sweep — is a parameter; `ClipLineSpec core.line` is an explicit
+hypothesis where it is needed (`C14_empty_iff`), compared per generated case with the exact oracle in
+the correspondence run.  Proved for all inputs: the glue (`C14_glue`), the trivial cases including
+the geometric fact that box-disjoint operands are set-disjoint (`C14_trivial`), soundness of the
+oracle (`oracle_midpoints_inside`, `oracle_endpoints_on_L`).  Level: proof, **partial**.
+-/
+set_option linter.unusedSimpArgs false
+set_option linter.unusedVariables false
+namespace GeomV.C14
+open GeomV GeomV.C01
+
+/-! ## glue -/
+
+theorem dropLast_closeRing (r : Ring) : (closeRing r).dropLast = r := by
+  cases r with
+  | nil => simp [closeRing]
+  | cons h t =>
+    show ((h :: t) ++ [h]).dropLast = h :: t
+    rw [List.dropLast_concat]
+
+theorem map_dropLast_close (cs : Contours) : (polyClipToPolygon cs).map List.dropLast = cs := by
+  induction cs with
+  | nil => rfl
+  | cons r cs ih =>
+    simp only [polyClipToPolygon, List.map_cons, dropLast_closeRing, List.map_map] at ih ⊢
+    rw [ih]
+
+/-- **C14 glue.** For `LineString` and `MultiLineString` receivers and `Polygon`, `MultiPolygon`,
+`*Bounds` arguments, `Clip` returns exactly the clipper's pieces (the artificial closing vertex added
+by `polyClipToPolygon` is the one removed again): nothing in the trivial cases, the sweep's pieces
+otherwise. -/
+theorem C14_glue (core : ClipCore) (L : Lines) (arg : Operand) :
+    clip core L arg =
+      if trivialCase L.paths (toContours arg) then [] else core.line L.paths (toContours arg) := by
+  have h1 : clipperOp .clipline L.paths (toContours arg) = .clipline := by simp [clipperOp]
+  have : clip core L arg = construct core .clipline L.paths (toContours arg) := by
+    simp only [clip, polyOp, h1]
+    exact map_dropLast_close _
+  rw [this]
+  unfold construct trivialCase
+  by_cases e : (L.paths.isEmpty || (toContours arg).isEmpty) = true
+  · simp [e]
+  · by_cases o : overlaps (bbox L.paths) (bbox (toContours arg)) = true
+    · simp [e, o]
+    · simp [e, o]
+
+/-! ## trivial cases: box-disjoint ⇒ set-disjoint -/
+
+theorem mem_pairs (l : Path) (e : P × P) (h : e ∈ pairs l) : e.1 ∈ l ∧ e.2 ∈ l := by
+  induction l with
+  | nil => simp [pairs] at h
+  | cons a l ih =>
+    cases l with
+    | nil => simp [pairs] at h
+    | cons b r =>
+      simp only [pairs, List.mem_cons] at h
+      rcases h with h | h
+      · subst h; simp
+      · have := ih (by simpa using h)
+        exact ⟨List.mem_cons_of_mem _ this.1, List.mem_cons_of_mem _ this.2⟩
+
+theorem inBoxC_of_onSeg (mn mx a b p : P) (ha : inBoxC mn mx a) (hb : inBoxC mn mx b)
+    (h : onSeg a b p = true) : inBoxC mn mx p := by
+  simp only [onSeg, between, Bool.and_eq_true, Bool.or_eq_true, decide_eq_true_eq] at h
+  obtain ⟨⟨_, hx⟩, hy⟩ := h
+  obtain ⟨a1, a2, a3, a4⟩ := ha
+  obtain ⟨b1, b2, b3, b4⟩ := hb
+  refine ⟨?_, ?_, ?_, ?_⟩
+  · rcases hx with hx | hx <;> linarith [hx.1, hx.2]
+  · rcases hx with hx | hx <;> linarith [hx.1, hx.2]
+  · rcases hy with hy | hy <;> linarith [hy.1, hy.2]
+  · rcases hy with hy | hy <;> linarith [hy.1, hy.2]
+
+theorem inBox_of_onPaths (s : List Path) (p : P) (h : onPaths s p = true) :
+    ∃ mn mx, bbox s = some (mn, mx) ∧ inBoxC mn mx p := by
+  simp only [onPaths, onPath, List.any_eq_true] at h
+  obtain ⟨l, hl, e, he, hon⟩ := h
+  have ⟨m1, m2⟩ := mem_pairs l e he
+  obtain ⟨mn, mx, hb, i1⟩ := bbox_contains s l e.1 hl m1
+  have i2 := bbox_some s mn mx hb l hl e.2 m2
+  exact ⟨mn, mx, hb, inBoxC_of_onSeg mn mx e.1 e.2 p i1 i2 hon⟩
+
+theorem inBox_of_onBoundary (c : Contours) (p : P) (h : onBoundary c p = true) :
+    ∃ mn mx, bbox c = some (mn, mx) ∧ inBoxC mn mx p := by
+  simp only [onBoundary, List.any_eq_true] at h
+  obtain ⟨r, hr, e, he, hon⟩ := h
+  have ⟨m1, m2⟩ := mem_edges r e he
+  obtain ⟨mn, mx, hb, i1⟩ := bbox_contains c r e.1 hr m1
+  have i2 := bbox_some c mn mx hb r hr e.2 m2
+  exact ⟨mn, mx, hb, inBoxC_of_onSeg mn mx e.1 e.2 p i1 i2 hon⟩
+
+theorem inBox_of_insideClosed (c : Contours) (p : P) (h : insideClosedC c p = true) :
+    ∃ mn mx, bbox c = some (mn, mx) ∧ inBoxC mn mx p := by
+  simp only [insideClosedC, Bool.or_eq_true] at h
+  rcases h with h | h
+  · exact inBox_of_inside c p h
+  · exact inBox_of_onBoundary c p h
+
+/-- **C14 trivial cases.** If an operand is empty or the bounding boxes do not overlap, `Clip`
+returns no piece — and rightly so: no point of the line lies inside or on the polygon
+(box-disjointness implies set-disjointness). -/
+theorem C14_trivial (core : ClipCore) (L : Lines) (arg : Operand)
+    (h : trivialCase L.paths (toContours arg) = true) :
+    clip core L arg = [] ∧
+    ∀ p, ¬ (onPaths L.paths p = true ∧ insideClosedC (toContours arg) p = true) := by
+  refine ⟨by rw [C14_glue, h]; rfl, ?_⟩
+  rintro p ⟨h1, h2⟩
+  obtain ⟨smn, smx, es, s1, s2, s3, s4⟩ := inBox_of_onPaths _ p h1
+  obtain ⟨cmn, cmx, ec, c1, c2, c3, c4⟩ := inBox_of_insideClosed _ p h2
+  simp only [trivialCase, Bool.or_eq_true] at h
+  rcases h with (h | h) | h
+  · rw [List.isEmpty_iff] at h; rw [h] at es; simp [bbox] at es
+  · rw [List.isEmpty_iff] at h; rw [h] at ec; simp [bbox] at ec
+  · rw [es, ec] at h
+    simp only [overlaps, boxOverlaps, Bool.not_eq_true', Bool.and_eq_false_iff, decide_eq_false_iff_not,
+      not_le, ge_iff_le] at h
+    rcases h with ((h | h) | h) | h <;> linarith
+
+/-! ## empty exactly when the line does not enter the polygon -/
+
+theorem onSeg_left (a b : P) : onSeg a b a = true := by
+  have : orient a b a = 0 := by simp only [orient]; ring
+  simp [onSeg, between, this, le_total]
+
+/-- **C14, emptiness.** Under the CLIPLINE contract, for a simple line in general position w.r.t. a
+valid polygon: `Clip` returns no piece exactly when no point of the line lies inside or on the
+polygon. -/
+theorem C14_empty_iff (core : ClipCore) (hline : ClipLineSpec core.line) (L : Lines) (arg : Operand)
+    (hs : simplePaths L.paths = true) (hv : validC (toContours arg) = true)
+    (hg : gpLine L.paths (toContours arg) = true) :
+    clip core L arg = [] ↔
+      ∀ p, ¬ (onPaths L.paths p = true ∧ insideClosedC (toContours arg) p = true) := by
+  by_cases ht : trivialCase L.paths (toContours arg) = true
+  · have := C14_trivial core L arg ht
+    exact ⟨fun _ => this.2, fun _ => this.1⟩
+  · have hne : L.paths ≠ [] ∧ toContours arg ≠ [] ∧ overlaps (bbox L.paths) (bbox (toContours arg)) = true := by
+      simp only [trivialCase, Bool.or_eq_true, not_or, Bool.not_eq_true, Bool.not_eq_eq_eq_not, Bool.not_not,
+        Bool.not_false] at ht
+      refine ⟨?_, ?_, ?_⟩
+      · intro e; rw [e] at ht; simp at ht
+      · intro e; rw [e] at ht; simp at ht
+      · simpa using ht.2
+    obtain ⟨hlen, hpts⟩ := hline L.paths (toContours arg) hne.1 hne.2.1 hne.2.2 hs hv hg
+    rw [C14_glue]
+    simp only [ht, Bool.false_eq_true, if_false]
+    constructor
+    · intro he p hp
+      have := (hpts p).2 hp
+      rw [he] at this; simp [onPaths] at this
+    · intro hall
+      cases hR : core.line L.paths (toContours arg) with
+      | nil => rfl
+      | cons piece rest =>
+        exfalso
+        have h2 : 2 ≤ piece.length := hlen piece (by rw [hR]; simp)
+        match piece, h2 with
+        | a :: b :: t, _ =>
+          have hon : onPaths (core.line L.paths (toContours arg)) a = true := by
+            rw [hR]
+            simp [onPaths, onPath, pairs, onSeg_left]
+          exact hall a ((hpts a).1 hon)
+
+/-! ## the oracle is sound -/
+
+/-- **Oracle, inside.** Every interval the oracle reports for segment `ab` has its midpoint inside
+the polygon (even–odd rule). -/
+theorem oracle_midpoints_inside (cs : Contours) (a b : P) (iv : Rat × Rat) (h : iv ∈ oracleSeg cs a b) :
+    inside cs (pointAt a b ((iv.1 + iv.2) / 2)) = true := by
+  simp only [oracleSeg, subIntervals, List.mem_map, List.mem_filter] at h
+  obtain ⟨⟨t0, t1, f⟩, ⟨⟨⟨u0, u1⟩, _, hu⟩, hf⟩, rfl⟩ := h
+  simp only [Prod.mk.injEq] at hu
+  obtain ⟨rfl, rfl, rfl⟩ := hu
+  simp only [Bool.and_eq_true] at hf
+  exact hf.1.1.1
+
+theorem onSeg_pointAt (a b : P) (t : Rat) (h0 : 0 ≤ t) (h1 : t ≤ 1) : onSeg a b (pointAt a b t) = true := by
+  have ho : orient a b (pointAt a b t) = 0 := by simp only [orient, pointAt]; ring
+  have bx : between a.x b.x (a.x + t * (b.x - a.x)) = true := by
+    simp only [between, Bool.or_eq_true, Bool.and_eq_true, decide_eq_true_eq]
+    rcases le_total a.x b.x with h | h
+    · left
+      have := mul_nonneg h0 (sub_nonneg.2 h)
+      have := mul_le_mul_of_nonneg_right h1 (sub_nonneg.2 h)
+      constructor <;> linarith
+    · right
+      have := mul_nonneg h0 (sub_nonneg.2 h)
+      have := mul_le_mul_of_nonneg_right h1 (sub_nonneg.2 h)
+      constructor <;> nlinarith
+  have by' : between a.y b.y (a.y + t * (b.y - a.y)) = true := by
+    simp only [between, Bool.or_eq_true, Bool.and_eq_true, decide_eq_true_eq]
+    rcases le_total a.y b.y with h | h
+    · left
+      have := mul_nonneg h0 (sub_nonneg.2 h)
+      have := mul_le_mul_of_nonneg_right h1 (sub_nonneg.2 h)
+      constructor <;> linarith
+    · right
+      have := mul_nonneg h0 (sub_nonneg.2 h)
+      have := mul_le_mul_of_nonneg_right h1 (sub_nonneg.2 h)
+      constructor <;> nlinarith
+  simp only [onSeg, ho, decide_true, Bool.true_and, Bool.and_eq_true]
+  exact ⟨bx, by'⟩
+
+/-- **Oracle, on the line.** Every interval the oracle reports for segment `ab` is a sub-interval
+of `[0,1]` and both its end points lie on the segment. -/
+theorem oracle_endpoints_on_L (cs : Contours) (a b : P) (iv : Rat × Rat) (h : iv ∈ oracleSeg cs a b) :
+    0 ≤ iv.1 ∧ iv.1 ≤ iv.2 ∧ iv.2 ≤ 1 ∧
+    onSeg a b (pointAt a b iv.1) = true ∧ onSeg a b (pointAt a b iv.2) = true := by
+  simp only [oracleSeg, List.mem_map, List.mem_filter] at h
+  obtain ⟨⟨t0, t1, f⟩, ⟨_, hf⟩, rfl⟩ := h
+  simp only [Bool.and_eq_true, decide_eq_true_eq] at hf
+  obtain ⟨⟨⟨_, h0⟩, h01⟩, h1⟩ := hf
+  exact ⟨h0, h01, h1, onSeg_pointAt a b t0 h0 (le_trans h01 h1), onSeg_pointAt a b t1 (le_trans h0 h01) h1⟩
+
+/-! ## non-vacuity -/
+
+def sqC : Contours := [[⟨1/2, 1/2⟩, ⟨9/2, 1/2⟩, ⟨9/2, 9/2⟩, ⟨1/2, 9/2⟩, ⟨1/2, 1/2⟩]]
+def thru : List Path := [[⟨0, 2⟩, ⟨6, 2⟩]]
+
+/-- the hypotheses of `C14_empty_iff` / `ClipLineSpec` are satisfiable, and on this case the oracle
+reports exactly the interval between the two crossings -/
+example : simplePaths thru = true ∧ validC sqC = true ∧ gpLine thru sqC = true ∧
+    trivialCase thru sqC = false ∧ oracleSeg sqC ⟨0, 2⟩ ⟨6, 2⟩ = [(1/12, 3/4)] ∧
+    oracleChains sqC thru = [[⟨1/2, 2⟩, ⟨9/2, 2⟩]] := by decide +kernel
+
+/-- a box-disjoint case (hypothesis of `C14_trivial`) -/
+example : trivialCase [[⟨10, 10⟩, ⟨12, 11⟩]] sqC = true := by decide +kernel
+
+end GeomV.C14
